@@ -292,6 +292,7 @@ class Contract:
         self.returns: Optional[Ty] = None
         self.ghost: Dict[str, Ty] = {}
         self.requires: List[Clause] = []
+        self.assumes: List[Clause] = []   # definitional axioms instantiated when the function itself is verified (not at call sites)
         self.ensures: List[Clause] = []
         self.canaries: List[Clause] = []
         self.modifies: List[str] = []          # heap components the function may write ("Class.attr", "list:<param>")
@@ -309,6 +310,7 @@ class Contract:
         self.notes: str = ""
         self.xval: Optional[Callable[..., Any]] = None  # generator of native inputs for cross-validation
         self.reify: Optional[Callable[..., Any]] = None
+        self.axiom_sets: set = set()     # optional spec axiom families needed by this function's proof (e.g. {"addr"})
         self.samples: Optional[Callable[[], Any]] = None   # native argument dicts (cross-validation, frame replay)
 
 
@@ -329,6 +331,12 @@ def contract(target: str, **kw: Any) -> Contract:
 
 def requires(c: Contract, label: str, fn: Callable[..., Any], tags: Sequence[str] = ()) -> None:
     c.requires.append(Clause(label, fn, tags))
+
+
+def assumes(c: Contract, label: str, fn: Callable[..., Any]) -> None:
+    """Definitional axioms of ghost symbols (e.g. the definition of ISFIELDREAD for this stack value): assumed at the entry
+    of the function's own verification only; callers see the ensures clauses, which are stated in terms of the ghosts."""
+    c.assumes.append(Clause(label, fn))
 
 
 def ensures(c: Contract, label: str, fn: Callable[..., Any], tags: Sequence[str] = (), note: str = "",
